@@ -283,12 +283,13 @@ func (w *worker) runJob(j job) {
 	t.Count("pages_compared", int64(len(px)))
 	for i := range px {
 		a, b := px[i], py[i]
-		ps := ""
+		ps, sk := "", ""
 		if i < len(pageScen) {
-			ps = " (scenario " + pageScen[i] + ")"
+			// generated pages: the construction the page belongs to is part of WHAT fails
+			ps, sk = " (scenario "+pageScen[i]+")", "/scenario="+pageScen[i]
 		}
 		if a.ContentHash != b.ContentHash || a.ContentErr != b.ContentErr {
-			viol("class=page-content-changed", fmt.Sprintf("page %d%s: decoded content %d bytes (%s) -> %d bytes (%s) %s", i+1, ps, a.ContentLen, a.ContentHash[:12], b.ContentLen, b.ContentHash[:12], b.ContentErr))
+			viol("class=page-content-changed"+sk, fmt.Sprintf("page %d%s: decoded content %d bytes (%s) -> %d bytes (%s) %s", i+1, ps, a.ContentLen, a.ContentHash[:12], b.ContentLen, b.ContentHash[:12], b.ContentErr))
 			continue
 		}
 		for _, bn := range docfp.BoxNames {
@@ -322,7 +323,7 @@ func (w *worker) runJob(j job) {
 			if ds := col.Differences(0, va, 1, vb, 1); len(ds) > 0 && how != "dropped" {
 				diff, det = "/diff="+ds[0].Where+"/"+ds[0].Kind, ds[0].String()
 			}
-			viol("class=page-resource-changed/cat="+u.Cat+"/how="+how+diff,
+			viol("class=page-resource-changed/cat="+u.Cat+"/how="+how+diff+sk,
 				fmt.Sprintf("page %d%s: /%s (%s) resolved to %s, now to %s %s", i+1, ps, u.Name, u.Cat, gx.Describe(va), gy.Describe(vb), det))
 		}
 	}
@@ -359,7 +360,7 @@ func (w *worker) runJob(j job) {
 		viol("class=not-idempotent/what=canonical-form/where="+where, det)
 	}
 	w.mu.Lock()
-	if w.sampled < 6 && j.JI%41 == 0 {
+	if j.JI%41 == 0 && j.JI/41 < 8 { // a fixed set of cases, independent of scheduling
 		w.sampled++
 		t.Sample(map[string]any{"document": name, "variant": v, "pages": len(px), "objects_input": nx, "objects_optimised": ny, "refine_rounds": col.Rounds})
 	}
